@@ -63,9 +63,12 @@ type sub struct {
 func (s *subs) Publish(channel string, msg PubSubMessage) {
 	if atomic.LoadUint64(&s.cnt) != 0 {
 		s.mu.RLock()
+		vhook("subs.pub.begin", s, 0, 0)
 		for _, sb := range s.chs[channel].sub {
 			sb.ch <- msg
+			vhook("subs.pub.send", sb, 0, 0)
 		}
+		vhook("subs.pub.end", s, 0, 0)
 		s.mu.RUnlock()
 	}
 }
@@ -85,6 +88,7 @@ func (s *subs) Subscribe(channels []string, fn func(PubSubSubscription)) (ch cha
 			}
 			c[id] = sb
 		}
+		vhook("subs.sub", sb, int(id), 0)
 		cancel = func() {
 			go func() {
 				for range ch {
@@ -94,6 +98,7 @@ func (s *subs) Subscribe(channels []string, fn func(PubSubSubscription)) (ch cha
 			if s.chs != nil {
 				s.remove(id)
 			}
+			vhook("subs.cancel", s, int(id), 0)
 			s.mu.Unlock()
 		}
 	}
@@ -108,6 +113,7 @@ func (s *subs) remove(id uint64) {
 				delete(c, id)
 			}
 		}
+		vhook("subs.remove", sb, int(id), 0)
 		close(sb.ch)
 		delete(s.sub, id)
 	}
@@ -135,6 +141,7 @@ func (s *subs) Unsubscribe(sub PubSubSubscription) {
 			s.remove(id)
 		}
 		delete(s.chs, sub.Channel)
+		vhook("subs.unsub", s, 0, 0)
 		s.mu.Unlock()
 	}
 }
@@ -145,8 +152,10 @@ func (s *subs) Close() {
 	sbs = s.sub
 	s.chs = nil
 	s.sub = nil
+	vhook("subs.close.locked", s, len(sbs), 0)
 	s.mu.Unlock()
 	for _, sb := range sbs {
 		close(sb.ch)
 	}
+	vhook("subs.close.done", s, 0, 0)
 }
